@@ -9,6 +9,7 @@ import hashlib
 import os
 import time
 
+EPOCH = 1_700_000_000
 _state = {'key': b'0', 'ctr': 0, 'loop': None, 'installed': False,
           'epoch': 1_700_000_000.0}
 _real_urandom = os.urandom
